@@ -13,9 +13,12 @@ FANOUT = lambda K: (4096 - 16) // (K + 8) + 1
 PER_LEAF = lambda K: 4096 // (57 + K)
 
 
+ORDER = 'big'     # byte order of the key values of the script being generated ('little': cfg order=le)
+
+
 def key_of(K, i):
     v = 2 * i + 2
-    return v.to_bytes(K, 'big').hex() if K > 1 else bytes([v % 256]).hex()
+    return v.to_bytes(K, ORDER).hex() if K > 1 else bytes([v % 256]).hex()
 
 
 def gen_script(rng, tier, big, deep=False):
@@ -24,6 +27,11 @@ def gen_script(rng, tier, big, deep=False):
         K = rng.choice([1000, 1000, 503])
     per = PER_LEAF(K)
     fan = FANOUT(K)
+    # a quarter of the scripts use a key type whose order is NOT the order of its bytes (the Key trait leaves the order
+    # to the user): N bytes compared as a little-endian number. The model works with the key's rank; only the byte image
+    # of the file is not compared then.
+    global ORDER
+    ORDER = 'little' if (K > 1 and not deep and rng.random() < 0.25) else 'big'
     # number of keys: around interesting boundaries
     maxkeys = 120 if K == 1 else (400 if K <= 32 else (700 if K == 138 else (260 if K == 250 else 120)))
     if deep:
@@ -64,7 +72,7 @@ def gen_script(rng, tier, big, deep=False):
         # keep scripts bounded
         scale = 1500.0 / total
         vers = [max(1, int(v * scale)) for v in vers]
-    L = ['cfg K=%d' % K, 'idx new 0 none']
+    L = ['cfg K=%d%s' % (K, ' order=le' if ORDER == 'little' else ''), 'idx new 0 none']
     pushes = []
     off = 20
     for i, v in enumerate(vers):
@@ -89,7 +97,7 @@ def gen_script(rng, tier, big, deep=False):
     def absent_hex(v):
         if K == 1:
             return bytes([v % 256]).hex() if 0 <= v < 256 else None
-        return v.to_bytes(K, 'big').hex()
+        return v.to_bytes(K, ORDER).hex()
     for v in [1, 3, 2 * (nk // 2) + 3, 2 * nk + 1, 2 * nk + 3, 2 * nk + 101]:
         h = absent_hex(v)
         if h is not None and (v % 2 == 1):
